@@ -20,8 +20,8 @@ def degenerate_trunc(sv, m, n, R):
     r = sum(1 for v in sv if v != 0)
     head = [v for v in sv[:R] if v != 0]
     if len(set(head)) < len(head):
-        return True
-    return (R - r) >= 2
+        return "degenerate-spectrum"
+    return "degenerate-null-space" if (R - r) >= 2 else ""
 
 
 def measure(rec, fn, cls, detail, A, Uf, sf, Vf, sv_exp, ey_exp, R, full):
@@ -84,7 +84,7 @@ def _class_job(args):
             q_to_float(Vq), [v * 2.0 ** e for v in sv], None, None, True)
     for R in range(1, min(m, n) + 1):
         Uq, s, Vq = Q.classical_qsvd(Aq.copy(), R)
-        cls = "degenerate-spectrum" if degenerate_trunc(sv, m, n, R) else "simple-spectrum"
+        cls = degenerate_trunc(sv, m, n, R) or "simple-spectrum"
         measure(rec, "classical_qsvd", cls, dict(detail, R=R), A, q_to_float(Uq), np.asarray(s), q_to_float(Vq),
                 sv, st["out"]["ey"][R - 1], R, False)
     return rec.events, rec.info
@@ -135,14 +135,14 @@ def _rand_job(args):
         rank = int(np.sum(np.array(sv) > 1e-10 * max(sv[0], 1e-300))) if sv and sv[0] > 0 else 0
         sv_clean = [v if i < rank else 0.0 for i, v in enumerate(sv)]
         deg = (m - rank >= 2) or (n - rank >= 2)
-        cls = "degenerate-spectrum" if deg else "simple-spectrum"
+        cls = "degenerate-null-space" if deg else "simple-spectrum"          # random low-rank input: simple non-zero values
         detail = {"kind": "random", "shape": [m, n], "rank": rank, "A": A.tolist()}
         Aq = q_from_float(A)
         Uq, s, Vq = Q.classical_qsvd_full(Aq.copy())
         measure(rec, "classical_qsvd_full", cls, detail, A, q_to_float(Uq), np.asarray(s), q_to_float(Vq), sv_clean, None, None, True)
         for R in range(1, k + 1):
             Uq, s, Vq = Q.classical_qsvd(Aq.copy(), R)
-            c2 = "degenerate-spectrum" if (R - rank) >= 2 else "simple-spectrum"
+            c2 = "degenerate-null-space" if (R - rank) >= 2 else "simple-spectrum"
             ey = sum(v * v for v in sv_clean[R:])
             measure(rec, "classical_qsvd", c2, dict(detail, R=R), A, q_to_float(Uq), np.asarray(s), q_to_float(Vq), sv_clean, ey, R, False)
     return rec.events, rec.info
